@@ -231,3 +231,19 @@ CLAIMS["C13"] = dict(
     note="No production hook: gates are installed in-package around the ipSelector interface; Lock's announce and acquire cannot be observed "
          "separately and are composed in the trace spec; a stall is re-run once before it is reported.",
 )
+CLAIMS["C11"] = dict(
+    category="exploration",
+    technique="TLA+ spec Wire.tla (field-shape grammar of every externally supplied message, the code's guards as trigger predicates; NeverCrash / NeverHangs / AlwaysAnswersHTTP checked by TLC, rows emitted by TLC) + delivery of every TLC row and its truncation / bit-flip neighbourhood to the real entry points under recover() and per-call timeouts",
+    text="Wire.tla describes C2SWrapper / ClientToStation / RegistrationResponse / transport parameters / HTTP and DNS envelopes as records of fields "
+         "ranging over shape classes (absent, empty, short, exact, long, wrong type, out-of-range enum, ...) for 10 entry points and models the "
+         "code as 20 named guards; TLC checks that the outcome is always error / ignored / accepted, that HTTP always answers and nothing hangs "
+         "(as-found and no-pointer-limit instances violate) and emits the rows: full products for the small entry points, base-choice covering "
+         "designs of strength 2 (quick, 210 k rows) / 3 (thorough, 1.4 M rows) for the message-shaped ones, plus seeded random rows. Every row is "
+         "serialised and delivered - also truncated and bit-flipped - to the real parseRegMessage+ingestRegistration, the transports' "
+         "WrapConnection / ParseParams / GetDstPort, the real dtls Connect with the real DNAT packet builder, RegProcessor, the API handlers behind "
+         "a real net/http server on loopback (a missing status line = net/http's panic recovery), the DNS registrar server and responder over "
+         "loopback UDP and the codecs; a process-killing panic is attributed to the row in flight and the driver resumes behind it.",
+    note="Exploration level: structured inputs and their mutation neighbourhoods, not coverage-guided fuzzing of arbitrary bytes (bytes far from any "
+         "well-formed message, e.g. inside proto.Unmarshal, are not reached); ZMQ / TUN / a real DTLS peer are outside; the model's accept / reject "
+         "expectations are necessary conditions only.",
+)
